@@ -87,7 +87,7 @@ Proof. exact auth_not_dropped. Qed.
 Print Assumptions c04_auth_not_dropped.
 
 Theorem c04_resumed_only_by_lookup : forall sig_ok fin_ok c ms b, resumed (run_hello sig_ok fin_ok c ms) = Some b ->
-  p_role c = VServer /\ exists rest, ms = MClientHello (Some b) :: rest.
+  p_role c = VServer /\ In (MClientHello (Some b)) ms.
 Proof. exact resumed_only_by_lookup. Qed.
 Print Assumptions c04_resumed_only_by_lookup.
 
